@@ -10,9 +10,11 @@ interactive-builder results, in-process CLI output / exit status.
 """
 from __future__ import print_function, unicode_literals
 
+import copy
 import io
 import os
 import json
+import pickle
 import sys
 
 repo, corpus_path, out_path = sys.argv[1], sys.argv[2], sys.argv[3]
@@ -60,6 +62,14 @@ def obs_obj(o, ver, s0):
             r["json%d%d" % (s, m)] = jsonitems(o.as_json(sort=s, minimal=m), s)
     # iteration order of the unsorted documents, kept apart from their content
     r["korder"] = [[txt(k) for k in o.as_json(minimal=m)] for m in (False, True)]
+    # the object stored and copied the way the interpreter's own standard library does it by default (pickle's
+    # default protocol differs between the interpreters): what comes back, or the class of what is raised
+    for name, fn in (("pickle", lambda x: pickle.loads(pickle.dumps(x))), ("deepcopy", copy.deepcopy), ("copy", copy.copy)):
+        try:
+            o2 = fn(o)
+            r[name] = [txt(o2.clean_vector()), list(o2.scores()), txt(o2.rh_vector()), o2 == o, hash(o2) == hash(o)]
+        except Exception as e:
+            r[name] = type(e).__name__
     return r
 
 
@@ -75,6 +85,20 @@ def construct(ver, s):
 
 
 def rh(ver, s):
+    r = rh_(ver, s)
+    # what THIS interpreter's own float() makes of the text before the first '/' (not a library result: it lets the
+    # monitor recognise a difference that is explained by the builtin alone -- known finding F9)
+    u = txt(s)
+    if "/" in u:
+        try:
+            float(u.split("/", 1)[0])
+            r["float_ok"] = True
+        except ValueError:
+            r["float_ok"] = False
+    return r
+
+
+def rh_(ver, s):
     try:
         o = CLS[ver].from_rh_vector(s)
     except Exception as e:
